@@ -100,6 +100,56 @@ def run(tier="quick", seed=0):
                                                  "why": "array converter on a %s array gives %r, scalar converter on the same value %r" % (label, int(g), conv(v)),
                                                  "inputs": {"signed": signed, "n_bits": n_bits, "n_frac": n_frac, "value": repr(v), "array_dtype": label}})
                                 break
+                    # ... for arrays that are not laid out in C order (transposed views, Fortran order, permuted axes): the element at
+                    # every index is the conversion of the element at that index
+                    k6 = [vs[(j * len(vs)) // 6] for j in range(6)]
+                    base2 = np.array(k6, dtype=float).reshape(2, 3)
+                    layouts = (("transposed view", base2.T), ("Fortran order", np.asfortranarray(base2)),
+                               ("permuted 3-d view", np.array(k6 + k6[::-1], dtype=float).reshape(2, 3, 2).transpose(2, 0, 1)),
+                               ("reversed / strided view", np.array(k6 + k6, dtype=float)[::-2]))
+                    for lname, arr in layouts:
+                        ev += 1
+                        keep = arr.copy()
+                        with warnings.catch_warnings():
+                            warnings.simplefilter("ignore")
+                            got = nc(arr)
+                        why = None
+                        if np.shape(got) != arr.shape:
+                            why = "result has shape %r for an input of shape %r" % (np.shape(got), arr.shape)
+                        elif not np.array_equal(arr, keep):
+                            why = "the caller's array was modified"
+                        else:
+                            for idx in np.ndindex(arr.shape):
+                                if int(got[idx]) != conv(float(arr[idx])):
+                                    why = "element %r of a %s is %r, the scalar converter gives %r for %r" % (idx, lname, int(got[idx]), conv(float(arr[idx])), float(arr[idx]))
+                                    break
+                        if why and len([x for x in viol if x["clause"].startswith("numpy")]) < 3:
+                            viol.append({"id": "nplayout_%d" % ev, "clause": "numpy_agrees_%d" % n_bits, "why": why,
+                                         "inputs": {"signed": signed, "n_bits": n_bits, "n_frac": n_frac, "layout": lname, "values": [repr(float(x)) for x in arr.ravel()]}})
+                    # ... and a converter object used twice: the result of the first call is still that result after the second
+                    for which in ("float_to_fix", "fix_to_float"):
+                        ev += 1
+                        if which == "float_to_fix":
+                            cobj, a1, a2 = nc, np.array(k6, dtype=float).reshape(2, 3), np.array(k6[::-1], dtype=float).reshape(2, 3)
+                            ref = lambda v: conv(float(v))      # noqa: E731
+                        else:
+                            cobj = tc.NumpyFixToFloatConverter(n_frac)
+                            a1 = np.array([lo, hi, 0, 1, hi // 3, lo // 3], dtype=nc.dtype).reshape(2, 3)
+                            a2 = a1[::-1, ::-1].copy()
+                            ref = lambda v: back(int(v))        # noqa: E731
+                        with warnings.catch_warnings():
+                            warnings.simplefilter("ignore")
+                            r1 = cobj(a1)
+                            r1_then = np.array(r1, copy=True)
+                            r2 = cobj(a2)
+                        why = None
+                        if not np.array_equal(r1, r1_then):
+                            why = "the array returned by the first call changed when the converter was called again (first result now %r, was %r)" % (np.asarray(r1).ravel().tolist(), r1_then.ravel().tolist())
+                        elif any(float(r2[idx]) != float(ref(a2[idx])) for idx in np.ndindex(a2.shape)) and n_bits < 64:
+                            why = "second call on the same converter object: %r, expected %r" % (np.asarray(r2).ravel().tolist(), [ref(a2[idx]) for idx in np.ndindex(a2.shape)])
+                        if why and len([x for x in viol if x["clause"].startswith("numpy")]) < 3:
+                            viol.append({"id": "nptwice_%d" % ev, "clause": "numpy_agrees_%d" % n_bits if which == "float_to_fix" else "numpy_fix_to_float", "why": why,
+                                         "inputs": {"signed": signed, "n_bits": n_bits, "n_frac": n_frac, "converter": which}})
                     nb = tc.NumpyFixToFloatConverter(n_frac)
                     ints = np.array([lo, hi, 0, 1], dtype=nc.dtype)
                     ev += 1
@@ -127,6 +177,6 @@ def run(tier="quick", seed=0):
                                              "inputs": {"signed": signed, "n_bits": n_bits, "n_frac": n_frac, "value": repr(v)}})
     samples.append({"float_to_fp(True, 8, 4)": [[v, tc.float_to_fp(True, 8, 4)(v)] for v in (-8.0, -0.26, 7.95, 100.0)]})
     return {"name": "c16_typecasts", "evaluations": ev, "distinct_nontrivial": len(distinct),
-            "rule": "formats signed/unsigned x n_bits 8,9,16,17,32,33,64,13 x n_frac {0,1,4,n/2,n-1,n,-2}, each format built twice in one process (the list forwards, then backwards); inputs: both ends of the range, +-1 step, +-1 ulp, quarter steps, 0, +-0.5, +-1e30, subnormals, 2**63, 2**64; scalar result against exact rational scale/truncate/saturate, monotone over the sorted inputs, round trip of representable values, numpy converters element-wise against the scalar (shapes (), (n,), (1,n)), deprecated variants modulo 2**n (every format whose parameters they accept, every input)",
+            "rule": "formats signed/unsigned x n_bits 8,9,16,17,32,33,64,13 x n_frac {0,1,4,n/2,n-1,n,-2}, each format built twice in one process (the list forwards, then backwards); inputs: both ends of the range, +-1 step, +-1 ulp, quarter steps, 0, +-0.5, +-1e30, subnormals, 2**63, 2**64; scalar result against exact rational scale/truncate/saturate, monotone over the sorted inputs, round trip of representable values, numpy converters element-wise against the scalar (arrays of doubles of shapes (), (n,), (1,n); float32 and float16 arrays; transposed, Fortran-ordered, axis-permuted and strided views, with the caller's array unchanged; one converter object called twice, the first result still intact afterwards), deprecated variants modulo 2**n (every format whose parameters they accept, every input)",
             "bound": "the listed formats and inputs", "exhaustive": False, "label": "bounded", "samples": samples,
             "violations": viol, "seconds": round(time.time() - t0, 2)}
